@@ -224,7 +224,7 @@ def run(chk):
                 'non-trivial = history contains a save and a layout change; distinct by (manager, grid, extents, history)')
     # the driver-script theorem (Props/C04Driver.lean) is about the loop REGENERATED from fullSimulation.py: run the translator first
     import subprocess
-    tr = subprocess.run(['/venv/bin/python', str(common.VERIF / 'harness' / 'translate_driver.py'), '--repo', str(common.REPO)],
+    tr = subprocess.run(['/venv/bin/python', str(common.VERIF / 'harness' / 'translate_driver.py'), '--repo', str(common.REPO), '--out', common.generated_dir(chk)],
                         capture_output=True, text=True)
     if tr.returncode != 0:
         chk.proof_broken.append({'theorem': 'translator (harness/translate_driver.py) refused the source of the time loop',
